@@ -14,7 +14,7 @@ C_DRIVER = "harness/drivers/c18_driver.c"
 EXTRA_C = ["harness/faultinj/faultinj.c"]
 REPO_SOURCES = V.all_repo_sources()          # the whole library, compiled from the working tree
 WRAPPED = ["malloc", "calloc", "realloc", "aligned_alloc", "posix_memalign", "free",
-           "eventfd", "epoll_create", "epoll_create1", "pipe", "pipe2", "socket", "accept", "accept4", "close",
+           "eventfd", "epoll_create", "epoll_create1", "pipe", "pipe2", "socket", "socketpair", "accept", "accept4", "close",
            "fopen", "fclose", "fwrite", "fflush"]
 LINK_FLAGS = ["-Wl,--wrap=" + w for w in WRAPPED]
 HEADER_LINES = 3
@@ -100,8 +100,36 @@ INSTANCES = [
     ("log_file_rotate_handler_write_rotate", 79, 2, False, False, True),
     # the logger asks the attached handlers whether any accepts the level before it allocates: async_logger_log (46) runs with
     # a sink handler that accepts the message; here the only handler refuses it, so the call must make no acquisition (att = 0)
-    ("async_logger_log_filtered", 80, 0, False, True, True),
+    ("async_logger_log_filtered", 80, 0, True, True, True),
+    # ---- entry points added by the coverage obligation (every allocating function with external linkage is driven
+    # or excluded with a reason: coq/C18/Coverage.v, theorem every_allocating_entry_point_accounted_for)
+    ("fast_flow_ctl_init", 300, 1, True, True, True),
+    ("log_file_time_rot_handler_init", 301, 1, True, True, True),
+    # a failed re-open during a time rotation is only printed by write() and leaves the handler without a file
+    ("log_file_time_rot_handler_write_rotate", 302, 2, False, False, True),
+    ("log_console_handler_init", 303, 0, True, True, True),
+    ("log_simple_init", 304, 1, True, True, True),
+    # recorded known finding: the result of muggle_log_file_time_rot_handler_init is dropped (success reported)
+    ("log_complicated_init", 305, 1, True, True, True),
+    ("socket_create", 306, 1, True, True, True), ("tcp_listen", 307, 1, True, True, True),
+    ("tcp_connect", 308, 1, True, True, True), ("tcp_bind", 309, 1, True, True, True),
+    ("tcp_bind_connect", 310, 1, True, True, True), ("udp_bind", 311, 1, True, True, True),
+    ("udp_connect", 312, 1, True, True, True), ("mcast_join", 313, 1, True, True, True),
+    ("socketpair", 314, 1, True, True, True), ("heap_sort", 315, 1, True, True, True),
+    ("ma_ring_thread_ctx_get", 316, 3, True, True, True), ("os_fopen", 317, 1, True, True, True),
 ]
+# instances whose operation is void / a callback: it never reports failure, so there is nothing to retry
+NO_RETRY = {"socket_evloop_add_ctx", "async_logger_log", "async_logger_log_filtered", "socket_evloop_on_read_accept",
+            "socket_evloop_on_wake", "log_file_rotate_handler_write_rotate", "log_file_time_rot_handler_write_rotate"}
+# instances with CONTINUED USE after the operation (or its retry) succeeded: more pushes / inserts / allocs up to and
+# beyond the old capacity, contents compared with the reference (driver: .cont; model: s_cont)
+CONT = {"memory_pool_ensure_space", "memory_pool_alloc_grow", "memory_pool_alloc_grow_capped",
+        "array_list_ensure_capacity", "array_list_append_grow", "array_list_insert_grow",
+        "heap_ensure_capacity", "heap_insert_grow", "stack_ensure_capacity", "stack_push_grow",
+        "avl_tree_insert", "avl_tree_insert_pool_grow", "hash_table_put", "hash_table_put_pool_grow",
+        "linked_list_append", "linked_list_insert", "linked_list_append_pool_grow",
+        "queue_enqueue", "queue_enqueue_pool_grow", "trie_insert_1", "trie_insert_3", "trie_insert_pool_grow",
+        "evloop_add_ctx", "evloop_add_ctx_poll", "evloop_add_ctx_select", "evloop_add_ctx_mempool_grow"}
 # boundary contents on the success path: (name, id, calls, number of caller-owned values stored in the container).
 # destroy runs with a counted free callback; a reported failure is retried without faults before destroy.
 CONTENT = [
@@ -113,7 +141,8 @@ CONTENT = [
     ("array_list_content_index0_full", 73, 0, 4), ("array_list_content_index0_grow", 74, 1, 5),
     ("heap_content_grow", 75, 1, 5), ("stack_content_full", 76, 0, 4),
 ]
-NVALS = {c[0]: c[3] for c in CONTENT}          # instances with values: retry after failure, freed == NVALS after destroy
+NVALS = {c[0]: c[3] for c in CONTENT}          # instances with values: freed == NVALS after destroy (both futures)
+CONT = CONT | {c[0] for c in CONTENT}
 INSTANCES = INSTANCES + [(c[0], c[1], c[2], True, True, True) for c in CONTENT]
 # constructors (no pre-built object): also run with the object storage filled with 0xA5 instead of 0x00
 CTORS = ["channel_init_mutex", "channel_init_nolock", "channel_init_default", "channel_init_rmutex", "ring_buffer_init",
@@ -121,7 +150,8 @@ CTORS = ["channel_init_mutex", "channel_init_nolock", "channel_init_default", "c
          "ts_memory_pool_init", "ring_memory_pool_init", "pointer_slot_init", "bytes_buffer_init", "flow_ctl_init",
          "array_list_init", "avl_tree_init_pool", "hash_table_init_pool", "heap_init", "linked_list_init_pool",
          "queue_init_pool", "stack_init", "trie_init_pool", "ev_signal_init", "socket_evloop_handle_init",
-         "socket_evloop_pipe_init", "async_logger_init", "log_file_handler_init", "log_file_rotate_handler_init"]
+         "socket_evloop_pipe_init", "async_logger_init", "log_file_handler_init", "log_file_rotate_handler_init",
+         "fast_flow_ctl_init", "log_file_time_rot_handler_init", "log_console_handler_init"]
 # cleanup blocks / failure handlers ("labels", numbered in coq/C18/Instances.v by H n) -> where they are in the C code
 LABEL_NAMES = {
     11: "memory_pool_init: data_bufs NULL", 12: "memory_pool_init: ptr_buf NULL", 13: "memory_pool_init: data_bufs[0] NULL",
@@ -150,14 +180,27 @@ LABEL_NAMES = {
     79: "on_read accept: evloop_add_ctx failed", 80: "on_wake: evloop_add_ctx failed (context released)",
     81: "rotate: re-open (fopen) failed", 82: "rotate handler write: rotate failed (ignored)",
     83: "log_file_handler_init: fopen failed", 84: "log_file_rotate_handler_init: fopen failed",
+    85: "fast_flow_ctl_init: arr NULL", 86: "time_rot rotate: fopen failed", 87: "time_rot_handler_init: rotate failed",
+    88: "time_rot handler write: rotate failed (printed only)", 89: "log_simple_init: rotate handler init failed",
+    90: "log_complicated_init: time_rot handler init failed (proposed repair only)", 91: "muggle_os_fopen: fopen failed",
+    92: "socket_create: socket failed", 93: "tcp_listen: no socket", 94: "tcp_connect: no socket", 95: "tcp_bind: no socket",
+    96: "tcp_bind_connect: tcp_bind failed", 97: "udp_bind: no socket", 98: "udp_connect: no socket",
+    99: "mcast_join: socket failed", 100: "socketpair failed", 101: "heap_sort: heap_init failed",
     157: "evloop_init: linked_list_init(0) failed (dead)", 168: "evloop_new: select init failed (dead)",
 }
 
 BY_NAME = {t[0]: t for t in INSTANCES}
 KNOWN_VOID = "void-socket-evloop-add-ctx"
+KNOWN_COMPLICATED = "log-complicated-init-drops-handler-failure"
+# instances whose ONLY recorded defect is the missing failure report: every other clause is still checked for them,
+# and the "reported SUCCESS" message is produced LAST (when nothing else is wrong with the case)
+KNOWN_UNREPORTED = {"socket_evloop_add_ctx": KNOWN_VOID, "log_complicated_init": KNOWN_COMPLICATED}
 
 RULE = ("complete enumeration: for each of the %d instances (public constructor / grower / inserter + its destroy) the "
-        "no-fault run and every single-fault position k = 1 .. (calls on the success path)+3, plus multi-fault sets: "
+        "no-fault run and every single-fault position k = 1 .. (calls on the success path)+3, each in TWO futures (A: destroy "
+        "follows the operation directly; B 'mode retry': a reported failure is retried without faults, the object is used "
+        "further - pushes / inserts / allocs up to and beyond the old capacity, contents compared with a reference - and then "
+        "destroyed), plus multi-fault sets: "
         "quick = seeded sets of size 2..3 per instance, thorough = ALL pairs {i<j<=calls+1} and seeded triples; a case is "
         "non-trivial when a fault was actually hit (k <= calls attempted); the tally lists, per instance, the cleanup "
         "labels entered by the compared cases (every label of every instance is entered; theorem every_cleanup_label_reached); "
@@ -175,6 +218,13 @@ TRUSTED_BASE = [
     "conditions listed per scenario in the generated file); (2) the hand-written transcription of every instance, tied to the code "
     "by the differential run (return class, calls attempted, live counts before/after the call and after destroy, for every k)",
     "modelled, not verified: pthread mutex/condvar initialisation and thread creation never fail (not allocation / fd-creating calls)",
+    "coverage tie (lib/props/c18_cov.py): the call graph is read from the clang JSON AST of every .c file under muggle/c (direct calls "
+    "only: a call through a function pointer is not followed - acquiring static callbacks are listed separately and must each have a "
+    "driving instance); 'driven under faults' = library functions called, inside harness/drivers/c18_driver.c, from a function used in "
+    "the .op column of its instance table; the exclusion list with its reasons is hand-written (coq/C18/Coverage.v)",
+    "'the failed call changed nothing' on the implementation side = byte-for-byte comparison of the object's struct, the arrays it "
+    "points to and its nodes with a snapshot taken before the call, plus an element-for-element comparison of the contents with a "
+    "reference kept by the driver; on the model side = every resource live before the call is still live and still pointed to",
 ]
 ASSUMPTIONS = [
     "caller-provided object storage is run both zero-filled and 0xA5-filled before each constructor: the outcome must not depend on it "
@@ -182,58 +232,100 @@ ASSUMPTIONS = [
     "a fault is a failing malloc/calloc/realloc/aligned_alloc or eventfd/epoll_create/pipe/socket call made by the library itself",
 ]
 EVIDENCE_NOTES = [
-    "covered by instances: muggle_channel_init (3 flag sets)/destroy, muggle_ring_buffer_init/destroy, "
-    "muggle_ma_ring_thread_ctx_init/cleanup, muggle_double_buffer_init/destroy, muggle_array_blocking_queue_init/destroy, "
-    "muggle_memory_pool_init/ensure_space/alloc(grow)/destroy, muggle_sowr_memory_pool_init/destroy, muggle_ts_memory_pool_init/"
+    "covered by instances: muggle_channel_init (4 flag sets)/destroy, muggle_ring_buffer_init/destroy, "
+    "muggle_ma_ring_thread_ctx_init/get/cleanup, muggle_double_buffer_init/destroy, muggle_array_blocking_queue_init/destroy, "
+    "muggle_memory_pool_init/ensure_space/alloc(grow, capped)/destroy, muggle_sowr_memory_pool_init/destroy, muggle_ts_memory_pool_init/"
     "destroy, muggle_ring_memory_pool_init/destroy, muggle_pointer_slot_init/destroy, muggle_bytes_buffer_init/destroy, "
-    "muggle_flow_ctl_init/destroy, muggle_array_list_init/ensure_capacity/append(grow)/destroy, muggle_heap_init/ensure_capacity/"
-    "insert(grow)/destroy, muggle_stack_init/ensure_capacity/push(grow)/destroy, muggle_avl_tree_init(pool)/insert(malloc node, "
-    "pool growth)/destroy, muggle_hash_table_init(pool)/put/destroy, muggle_linked_list_init(pool)/append/destroy, "
-    "muggle_queue_init(pool)/enqueue/destroy, muggle_trie_init(pool)/insert(1 and 3 nodes)/destroy, muggle_merge_sort, "
-    "muggle_ev_signal_init/destroy (eventfd), muggle_evloop_new (epoll, poll, select, epoll+mempool)/delete incl. "
-    "muggle_evloop_init_{epoll,poll,select}, muggle_evloop_add_ctx, muggle_socket_evloop_handle_init/destroy, "
-    "muggle_socket_evloop_add_ctx, muggle_async_logger_init/destroy, muggle_async_logger_log; added in the coverage round: "
-    "muggle_channel_init (WRITE_SPIN|READ_MUTEX), muggle_array_list_insert(grow), muggle_linked_list_insert, node-from-full-pool "
-    "growth through muggle_linked_list_append / muggle_hash_table_put / muggle_queue_enqueue / muggle_trie_insert / "
-    "muggle_evloop_add_ctx (mempool), muggle_memory_pool_alloc with max_delta_cap set, muggle_evloop_add_ctx on the poll and "
-    "select back-ends, muggle_socket_evloop_pipe_init/destroy (pipe()), the TCP_LISTEN accept path of "
-    "muggle_socket_evloop_on_read (loopback listener, cb_alloc and evloop_add_ctx failures; accept() is tracked, never failed), "
-    "muggle_socket_evloop_on_wake (registration of a handed-over context fails: it is released)",
-    "NOT covered by instances, with the reason: functions that make no interposable acquisition - ring_buffer / channel / "
+    "muggle_flow_ctl_init/destroy, muggle_fast_flow_ctl_init/destroy, muggle_array_list_init/ensure_capacity/append(grow)/insert(grow)/"
+    "destroy, muggle_heap_init/ensure_capacity/insert(grow)/destroy, muggle_stack_init/ensure_capacity/push(grow)/destroy, "
+    "muggle_avl_tree_init(pool)/insert(malloc node, pool growth)/destroy, muggle_hash_table_init(pool)/put(malloc node, pool growth)/"
+    "destroy, muggle_linked_list_init(pool)/append/insert/destroy, muggle_queue_init(pool)/enqueue/destroy, muggle_trie_init(pool)/"
+    "insert(1 and 3 nodes, pool growth)/destroy, muggle_merge_sort, muggle_heap_sort, muggle_ev_signal_init/destroy (eventfd), "
+    "muggle_evloop_new (epoll, poll, select, epoll+mempool)/delete incl. muggle_evloop_init_{epoll,poll,select}, muggle_evloop_add_ctx "
+    "(3 back-ends, mempool growth), muggle_socket_evloop_handle_init/destroy, muggle_socket_evloop_pipe_init/destroy (pipe()), "
+    "muggle_socket_evloop_add_ctx, the accept path of muggle_socket_evloop_on_read, muggle_socket_evloop_on_wake, "
+    "muggle_async_logger_init/destroy, muggle_async_logger_log, muggle_log_file_handler_init, muggle_log_file_rotate_handler_init / "
+    "write (rotation), muggle_log_file_time_rot_handler_init / write (rotation), muggle_log_console_handler_init (no acquisition: "
+    "att = 0 is compared), muggle_log_simple_init, muggle_log_complicated_init, muggle_os_fopen, muggle_socket_create, muggle_tcp_listen / "
+    "tcp_connect / tcp_bind / tcp_bind_connect / udp_bind / udp_connect / mcast_join (loopback, numeric host: one socket() per call), "
+    "muggle_socketpair",
+    "COVERAGE OBLIGATION (theorem every_allocating_entry_point_accounted_for): on every run the clang AST of all .c files under muggle/c "
+    "is read; every function with external linkage from which malloc/calloc/realloc/aligned_alloc/posix_memalign/strdup/fopen/fdopen/"
+    "socket/socketpair/pipe/pipe2/eventfd/epoll_create(1)/open/openat/creat/shm_open/shmget/shmat/mmap/opendir/dup/dup2/accept(4)/dlopen/"
+    "popen/timerfd_create/signalfd/inotify_init/kqueue is reachable through direct calls must be called by a driver function that runs "
+    "with the faults armed, or be excluded with a written reason in coq/C18/Coverage.v (at present: muggle_evloop_init_epoll/_poll - entered "
+    "through muggle_evloop_new's back-end table and enumerated there; muggle_socket_evloop_handle_alloc - the default cb_alloc, failed by "
+    "instance 59; muggle_dl_load, muggle_os_listdir, muggle_stacktrace_get - os/ is outside the modules the property quantifies over; "
+    "muggle_shm_open, muggle_shm_ringbuf_open - shmget/shmat are not in the property's fault class); acquiring static callbacks "
+    "(handler->write of the two rotating handlers, the evloop's cb_read) must each name their driving instance; a stale exclusion or an "
+    "unparsable source file also breaks the obligation",
+    "NOT covered by instances, with the reason: functions that make no acquisition according to that call graph - ring_buffer / channel / "
     "double_buffer / array_blocking_queue data paths, sowr/ts/ring pool alloc/free, muggle_pointer_slot_insert/remove (fixed "
     "arrays), bytes_buffer read/write (fixed buffer, no growth), muggle_hash_table_put bucket array (never grows), dsaa "
     "constructors with capacity 0, event_fd.c / event_context.c / event.c, muggle_ma_ring_backend_run (thread creation only), "
-    "log handler inits (console/file/rotate/time-rot: fopen inside libc is not interposed; no malloc), sync logger; a pool with "
-    "MUGGLE_MEMORY_POOL_CONSTANT_SIZE refuses growth without attempting an allocation (a refusal, not an allocation failure); the "
-    "pipe/socket variants of event_signal.c are not compiled on Linux (eventfd build); fast_flow_controller is not anchored; "
-    "retry-after-failure is not exercised (only destroy-after-failure); the only thread-context init/cleanup pair in the anchored "
-    "files is muggle_ma_ring_thread_ctx_init/cleanup (covered)",
+    "muggle_evloop_init_select, sync logger; a pool with MUGGLE_MEMORY_POOL_CONSTANT_SIZE refuses growth without attempting an "
+    "allocation (a refusal, not an allocation failure); the pipe/socket variants of event_signal.c are not compiled on Linux (eventfd "
+    "build); allocations made inside libc (getaddrinfo, opendir, backtrace_symbols, stdio buffers, pthread_create) are not interposable",
     "array_blocking_queue_init / double_buffer_init / ring_buffer_init leak or half-initialise only when pthread mutex/condvar "
-    "initialisation fails; that is outside the property's fault class (allocation or fd-creating call) and is not injected",
+    "initialisation fails, and muggle_async_logger_init leaks its channel only when muggle_thread_create fails; both are outside the "
+    "property's fault class (allocation or fd-creating call) and are not injected",
+    "SAFE TO RETRY / CONTINUED USE: every instance whose operation can report failure is run in a second future ('mode retry'): the failed "
+    "call is retried without faults on the same object (constructors: on the same storage), must succeed, and destroy must then release "
+    "everything.  Growers / inserters (memory pool ensure_space / alloc growth, array_list / heap / stack ensure_capacity and growing "
+    "insert / append / push, avl / hash table / linked list / queue / trie insert with malloc'ed nodes and with node-pool growth, "
+    "evloop_add_ctx) additionally CONTINUE: 20 more elements are stored in the array containers (beyond the old AND the new capacity: "
+    "further growth), pools are filled to their grown capacity with pattern-filled blocks that must be distinct and intact, node containers "
+    "get two more elements (pooled ones: remove + insert), everything is read back and compared with a reference kept by the driver, with "
+    "ASan on exact-size heap blocks.  After EVERY reported failure the object's struct, arrays and nodes are compared byte for byte with a "
+    "snapshot taken before the call ('unchanged yes'); the model's counterpart is o_kept",
+    "WAIVED CLAUSES, each with its reason - reports = False (the failure cannot be returned): async_logger_log (46; void by design: "
+    "logging), socket_evloop_on_read accept path (59) and socket_evloop_on_wake (60) (event-loop callbacks return void; the failure is "
+    "handled by releasing the connection), log_file_rotate_handler write (79) and log_file_time_rot_handler write (302) (write() returns "
+    "the formatted length; a failed re-open during a rotation is only printed to stderr and the handler is left without a file).  For "
+    "these no-crash / no-leak / destroy-releases-all are still required.  async_logger_log_filtered (80) no longer waives it (the call "
+    "makes no acquisition; att = 0 is compared).  strict = False (live set may differ after the failed call): trie_insert_3 (35; the "
+    "prefix nodes created before the failing node stay in the trie - they are reachable, reused by the retry and freed by destroy: "
+    "contents, retry, continued use and destroy are checked, only the byte-for-byte snapshot is not), socket_evloop_on_wake (60; the "
+    "handed-over context is RELEASED when it cannot be registered: fewer blocks live than before), rotate-handler writes (79, 302; the "
+    "old file was closed before the failing fopen: fewer handles live).  dfail = False: async_logger_init (45) - its destroy sends a "
+    "sentinel through the channel and joins the writer thread, neither of which exists after a failed init, so the API offers no "
+    "destroy for a logger whose init failed; the waiver is shrunk: the failed init is now RETRIED on the same storage, must succeed, "
+    "and destroy runs after the retry (future B)",
+    "KNOWN CLASSES are no longer removed wholesale: for instance 44 (void muggle_socket_evloop_add_ctx) and 305 "
+    "(muggle_log_complicated_init) the monitor checks every other clause first (leak, crash, destroy) and produces the 'reported SUCCESS' "
+    "text last; theorem known_class_instances_leak_free_crash_free / all_instances_hold_partial state the property without its reporting "
+    "clause for them (no_report), under every fault function",
+    "NEW KNOWN FINDING log-complicated-init-drops-handler-failure: muggle_log_complicated_init ignores the result of "
+    "muggle_log_file_time_rot_handler_init; when that fopen fails it returns 0 and attaches a handler without a file.  A small repair "
+    "is proposed in fixes/C18-log-complicated-init-reports-failure.patch (modelled as i_log_complicated_init_fixed, proved wf).  "
+    "OBSERVATIONS outside the property's scope (not claimed, listed in Coverage.v): muggle_os_listdir dereferences an unchecked "
+    "file-name malloc and silently drops an entry whose node malloc failed; muggle_shm_open leaks the segment it created when shmat "
+    "fails; muggle_log_simple_init leaves the console handler attached to the default logger when the file handler fails, so a retry "
+    "attaches it a second time (no resource is lost; lines are then printed twice)",
     "GENERATED from the C text by the translator (scenario = instance id): muggle_channel_init/destroy (4 flag sets: ids 0, 1, 47, 61), "
     "muggle_ring_buffer_init/destroy (2), muggle_double_buffer_init/destroy (4, loop unrolled), muggle_array_blocking_queue_init/"
     "destroy (5), muggle_memory_pool_init/destroy (6), sowr / ts / ring pool, pointer_slot, bytes_buffer, flow_ctl init/destroy (9-14), "
     "array_list / heap / stack init + ensure_capacity + destroy (15, 16, 23, 24, 30, 31), avl / hash_table / linked_list / queue / trie "
     "init with node pool + destroy, with muggle_memory_pool_init/destroy translated in place (18, 21, 26, 28, 33), muggle_ev_signal_init/"
     "destroy (37), muggle_socket_evloop_handle_init/destroy (43), muggle_log_file_handler / _rotate_handler init/destroy (77, 78), "
+    "muggle_fast_flow_ctl_init/destroy (300), muggle_log_file_time_rot_handler_init/destroy incl. its rotate (301), "
     "muggle_evloop_init_epoll/destroy_epoll (201), _poll (202), static muggle_evloop_init/destroy (203).  HAND-WRITTEN only: "
     "muggle_memory_pool_ensure_space / alloc (array element with a variable index), muggle_evloop_new/delete (back-end through a "
     "function-pointer table), ma_ring thread context (thread-local static, waits for the back-end thread), async logger (thread), "
     "socket_evloop_pipe (pipe yields two descriptors), all insert / put / push / enqueue / add_ctx operations, callbacks on_read / "
-    "on_wake, rotate-handler write, boundary-content instances.  An unsupported construct in a function of the generated set makes "
-    "gen_errors non-empty = broken obligation generated_programs_complete",
+    "on_wake, rotate-handler writes, the socket helpers, log_simple / complicated_init, boundary-content instances.  An unsupported "
+    "construct in a function of the generated set makes gen_errors non-empty = broken obligation generated_programs_complete",
     "FILE* handles are a third resource class: fopen counts as an acquisition call and can be failed, fclose releases; fwrite / "
     "fflush / fclose on a handle that was already closed (use after close, double close) stops the run and is a violation",
     "boundary-content instances (ids 62-76): containers pre-built with caller-owned heap values and contents that reach code the "
     "plain instances never touch - the EMPTY trie key (root.children[0]) with and without node pool, a single element, insertion at "
     "index 0 / at the head, a rejected duplicate (avl, hash table), node pool / array exactly full at destroy, growth with stored "
-    "values; destroy runs with a counted free callback (monitor: zero live and callback count == values stored, i.e. each value "
-    "released exactly once - a second release is a double free under ASan); a reported failure is followed by a fault-free retry "
-    "that must succeed ('safe to retry')",
-    "trie_insert of a multi-byte key keeps the prefix nodes it created when a later node allocation fails; they stay owned by "
-    "the trie and are released by destroy (monitor: zero live after destroy; the strict 'live unchanged' clause is not applied)",
-    "async_logger_init: destroy is NOT called after a reported failure (its destroy joins a thread that was never created); "
-    "async_logger_log is void by design, so only no-crash / no-leak / destroy-releases-all are required of it",
+    "values; destroy runs with a counted free callback (monitor: zero live and release count == values stored, i.e. each value "
+    "released exactly once - a second release is a double free under ASan; the value a FAILED operation did not store is released by "
+    "the caller and counted); both futures are run",
+    "muggle_log_simple_init / muggle_log_complicated_init attach function-local static handlers to the library's static default "
+    "logger and the library has no call that detaches them; the driver's destroy for these two instances calls each attached "
+    "handler's destroy and empties the default logger",
 ]
 
 
@@ -277,26 +369,44 @@ GEN_SPECS = {
  78: dict(op=("log/log_file_rotate_handler.c","muggle_log_file_rotate_handler_init",{"max_bytes":64,"backup_count":2}), destroy=("log/log_file_rotate_handler.c","muggle_log_file_rotate_handler_destroy",{}), hints={"handler->offset >= handler->max_bytes": False}),
  201: dict(op=("event/internal/event_loop_epoll.c","muggle_evloop_init_epoll",{}), destroy=("event/internal/event_loop_epoll.c","muggle_evloop_destroy_epoll",{})),
  202: dict(op=("event/internal/event_loop_poll.c","muggle_evloop_init_poll",{}), destroy=("event/internal/event_loop_poll.c","muggle_evloop_destroy_poll",{})),
+ 300: dict(op=("time/fast_flow_controller.c","muggle_fast_flow_ctl_init",{"time_range_sec":1,"n":4,"init_forward_sec":0}), destroy=("time/fast_flow_controller.c","muggle_fast_flow_ctl_destroy",{})),
+ 301: dict(op=("log/log_file_time_rot_handler.c","muggle_log_file_time_rot_handler_init",{"rotate_unit":115,"rotate_mod":1,"use_local_time":0}), destroy=("log/log_file_time_rot_handler.c","muggle_log_file_time_rot_handler_destroy",{})),
  203: dict(op=("event/event_loop.c","muggle_evloop_init",{}), destroy=("event/event_loop.c","muggle_evloop_destroy",{}), neutral=["muggle_linked_list_clear"], hints={"args->use_mem_pool": False}),
 }
 
 
 def gen_params(ctx):
     import c18_trans as T
+    import glob, shutil
+    for d in glob.glob(os.path.join(V.BUILD, "C18", "c18_scratch_*")):      # left behind by driver processes that crashed
+        try:
+            shutil.rmtree(d) if os.path.isdir(d) else os.remove(d)
+        except OSError:
+            pass
     V.gen_config_header()
     cflags = ["-std=gnu11", "-DNDEBUG", "-D" + V.GUARD, "-DMUGGLE_C_EXPORTS", "-I" + V.REPO, "-I" + V.GEN_INC]
     loader = T.AstLoader(V.REPO, cflags, os.path.join(V.BUILD, "C18", "astcache"), V.headers_hash())
-    return T.params_file(loader, GEN_SPECS, V.REPO)
+    txt = T.params_file(loader, GEN_SPECS, V.REPO)
+    # coverage tie: allocating entry points of the WHOLE library + what the driver's instance table drives under faults
+    import c18_cov as C
+    txt += C.params_text(V.REPO, cflags, os.path.join(V.BUILD, "C18", "cgcache"), V.headers_hash(),
+                         os.path.join(V.VERIF, C_DRIVER), cflags + ["-I" + os.path.join(V.VERIF, "harness")])
+    return txt
 
 
-def _mk(name, ks, tag, fill=None):
+def _mk(name, ks, tag, fill=None, retry=False):
+    """retry=False: the destroy follows the operation directly (future A, "safe to destroy");
+    retry=True: a reported failure is retried without faults, the object is used further, then destroyed (future B)"""
     t = BY_NAME[name]
     lines = ["inst %s %d" % (name, t[1])]
     if fill:
         lines.append("fill %s" % fill)      # ignored by the model: the outcome must not depend on it
         tag += "-" + fill
+    if retry:
+        lines.append("mode retry")
+        tag += "-retry"
     lines.append("faults" + "".join(" %d" % k for k in ks))
-    return V.Case("%s-%s" % (name, tag), lines, {"inst": name, "ks": list(ks)})
+    return V.Case("%s-%s" % (name, tag), lines, {"inst": name, "ks": list(ks), "retry": bool(retry)})
 
 
 def corpus_cases(ctx):
@@ -315,10 +425,14 @@ def generate(rng, tier):
         cases.append(_mk(name, [], "nofault"))
         for k in range(1, n + 4):
             cases.append(_mk(name, [k], "k%d" % k))
+        if name not in NO_RETRY:      # future B: failure, retry, continued use, destroy (k <= n + 1: a fault can be hit)
+            for k in range(1, n + 2):
+                cases.append(_mk(name, [k], "k%d" % k, retry=True))
         if name in CTORS:      # uninitialised (0xA5) object storage: a field the failed constructor never wrote is garbage
             cases.append(_mk(name, [], "nofault", "a5"))
             for k in range(1, n + 2):
                 cases.append(_mk(name, [k], "k%d" % k, "a5"))
+                cases.append(_mk(name, [k], "k%d" % k, "a5", retry=True))
     # multi-fault part: quick = seeded fault SETS of size 2..3 per instance; thorough = ALL pairs
     # {i, j} with 1 <= i < j <= calls+1, plus seeded triples
     seen = set()
@@ -328,6 +442,8 @@ def generate(rng, tier):
         if len(ks) >= 2 and (name, ks) not in seen:
             seen.add((name, ks))
             cases.append(_mk(name, list(ks), "m" + "_".join(map(str, ks))))
+            if name not in NO_RETRY:
+                cases.append(_mk(name, list(ks), "m" + "_".join(map(str, ks)), retry=True))
             if name in CTORS:
                 cases.append(_mk(name, list(ks), "m" + "_".join(map(str, ks)), "a5"))
     for name, iid, n, reports, strict, dfail in INSTANCES:
@@ -352,7 +468,7 @@ def search(rng, diverging, tier):
     for name, iid, n, reports, strict, dfail in INSTANCES:
         for i in range(12):
             ks = sorted(set(rng.range(1, n + 2) for _ in range(rng.range(1, 3))))
-            out.append(_mk(name, ks, "search%d-" % i + "_".join(map(str, ks))))
+            out.append(_mk(name, ks, "search%d-" % i + "_".join(map(str, ks)), retry=(i % 2 == 1 and name not in NO_RETRY)))
     return out
 
 
@@ -361,61 +477,90 @@ def _parse(case, lines):
     if not m or "inst" not in m:
         w = case.lines[0].split()
         ks = []
+        retry = False
         for ln in case.lines[1:]:
             if ln.startswith("faults"):
                 ks = [int(x) for x in ln.split()[1:]]
-        m = {"inst": w[1], "ks": ks}
+            if ln.split() == ["mode", "retry"]:
+                retry = True
+        m = {"inst": w[1], "ks": ks, "retry": retry}
     return m
 
 
 def monitor(case, lines):
-    """Independent oracle of the property: what the implementation printed must show
-    failure reported when a fault was hit, nothing leaked, destroy releases all."""
+    """Independent oracle of the property: what the implementation printed must show failure reported when a fault
+    was hit, nothing leaked, the object unchanged by the failed call, safe to destroy (future A) and safe to retry
+    and to keep using (future B), destroy releases all.  For the instances of KNOWN_UNREPORTED the missing failure
+    report is the recorded finding: every OTHER clause is checked first and that message comes last."""
     m = _parse(case, lines)
     t = BY_NAME.get(m["inst"])
     if t is None:
         return "unknown instance %s" % m["inst"]
     name, iid, n, reports, strict, dfail = t
     nv = NVALS.get(name, 0)
-    retry_line = None
-    if len(lines) == 4 and lines[2].startswith("retry rc="):
-        retry_line = lines[2]
-        lines = [lines[0], lines[1], lines[3]]
-    if len(lines) != 3 or not lines[0].startswith("pre live=") or not lines[1].startswith("op rc=") \
-            or not lines[2].startswith("destroy "):
+    mode_retry = bool(m.get("retry"))
+    lines = list(lines)
+    if len(lines) < 3 or not lines[0].startswith("pre live=") or not lines[1].startswith("op rc=") \
+            or not lines[-1].startswith("destroy "):
         return "unexpected output %r" % (lines,)
+    extra = {}
+    for ln in lines[2:-1]:
+        key = ln.split()[0]
+        if key not in ("unchanged", "retry", "cont") or key in extra:
+            return "unexpected output %r" % (lines,)
+        extra[key] = ln
     try:
         base = int(lines[0].split("=")[1])
         f = dict(x.split("=") for x in lines[1].split()[1:])
         rc, att, live = f["rc"], int(f["att"]), int(f["live"])
-        skipped = " skipped " in lines[2]
-        d = dict(x.split("=") for x in lines[2].split() if "=" in x)
+        skipped = " skipped " in lines[-1]
+        d = dict(x.split("=") for x in lines[-1].split() if "=" in x)
         dlive = int(d["live"])
         freed = int(d["freed"]) if "freed" in d else None
     except (ValueError, KeyError, IndexError):
         return "unparsable output %r" % (lines,)
     hit = sorted(k for k in m["ks"] if 1 <= k <= att)
-    where = "%s faults=%s (hit %s of %d calls)" % (name, m["ks"], hit, att)
+    where = "%s faults=%s%s (hit %s of %d calls)" % (name, m["ks"], " mode=retry" if mode_retry else "", hit, att)
+    unreported = None
     if hit:
         if reports and rc != "fail":
-            return "%s: allocation %d failed but the call reported SUCCESS" % (where, hit[0])
+            unreported = "%s: allocation %d failed but the call reported SUCCESS" % (where, hit[0])
+            if name not in KNOWN_UNREPORTED:
+                return unreported
         if strict and live != base:
             return "%s: %d block(s)/fd(s) live after the failed call, %d were live before it (leak)" % (where, live, base)
-        if rc == "fail" and dfail and skipped:
+        if rc == "fail":
+            if extra.get("unchanged") != "unchanged yes":
+                return "%s: the failed call CHANGED the object (%s)" % (where, extra.get("unchanged"))
+            if mode_retry:
+                if extra.get("retry") != "retry rc=ok":
+                    return "%s: the failed call was retried without faults and did not succeed (%r)" % (where, extra.get("retry"))
+            elif "retry" in extra:
+                return "%s: unexpected retry line" % where
+            if dfail and skipped and not mode_retry:
+                return "%s: destroy was not run" % where
+        ok_now = (rc == "ok") or (mode_retry and extra.get("retry") == "retry rc=ok")
+        if ok_now and name in CONT:
+            c = extra.get("cont", "")
+            if not c.startswith("cont rc=ok "):
+                return "%s: continued use of the object after the %s failed (%r)" % (
+                    where, "operation" if rc == "ok" else "retry", c)
+        if ok_now and skipped:
             return "%s: destroy was not run" % where
-        if nv:
-            if retry_line != "retry rc=ok":
-                return "%s: the failed call was retried without faults and did not succeed (%r)" % (where, retry_line)
         if dlive != 0:
             return "%s: %d block(s)/fd(s) still live after failed call%s" % (
-                where, dlive, "" if skipped else (" + retry + destroy" if nv else " + destroy"))
-        if nv and freed != nv:
-            return "%s: destroy released %s of the %d stored values through the free callback" % (where, freed, nv)
+                where, dlive, "" if skipped else (" + retry + continued use + destroy" if mode_retry else " + destroy"))
+        if nv and not skipped and freed != nv:
+            return "%s: %s of the %d stored values were released (each must be released exactly once)" % (where, freed, nv)
+        if unreported:
+            return unreported
     else:
         if rc != "ok":
             return "%s: no fault was hit but the call reported failure" % where
         if skipped:
             return "%s: destroy was not run after success" % where
+        if name in CONT and not extra.get("cont", "").startswith("cont rc=ok "):
+            return "%s: continued use of the object after the operation failed (%r)" % (where, extra.get("cont"))
         if dlive != 0:
             return "%s: %d block(s)/fd(s) still live after success + destroy (destroy does not release all)" % (where, dlive)
         if live < base:
@@ -428,8 +573,8 @@ def monitor(case, lines):
 
 def known_class(case, failure_text):
     m = _parse(case, [])
-    if m["inst"] == "socket_evloop_add_ctx" and failure_text and "reported SUCCESS" in failure_text:
-        return KNOWN_VOID
+    if m["inst"] in KNOWN_UNREPORTED and failure_text and "reported SUCCESS" in failure_text:
+        return KNOWN_UNREPORTED[m["inst"]]
     return None
 
 
@@ -440,7 +585,7 @@ def nontrivial_key(case, lines):
     except Exception:
         return None
     if any(1 <= k <= att for k in m["ks"]):
-        return "%s %s" % (m["inst"], m["ks"])
+        return "%s %s%s" % (m["inst"], m["ks"], " retry" if m.get("retry") else "")
     return None
 
 
@@ -513,12 +658,15 @@ MANIFEST = {
                    "tracked pointer variables): the outcome of a run depends only on the fault positions it consulted, so the finite "
                    "decision tree explored by the checker wf_scn covers every fault function; a scenario accepted by wf_scn reports "
                    "failure, leaks nothing, does not crash/hang/double-free and is safe to destroy under EVERY fault set, and behaves "
-                   "under any fault set as under its first hit.  81 instances transcribe the anchored constructors / growers / "
+                   "under any fault set as under its first hit.  99 instances transcribe the anchored constructors / growers / "
                    "inserters / destroys literally (wf_scn = true by vm_compute for the repaired code; the 17 transcriptions of the "
-                   "unchanged defective code are refuted with a witness k).  Tied to the C code on every run by complete single-fault "
+                   "unchanged defective code are refuted with a witness k; every failing operation is followed in two futures: destroy at "
+                   "once, and retry + continued use + destroy).  Tied to the C code on every run by complete single-fault "
                    "enumeration + seeded multi-fault sets on the library compiled from the working tree with the allocator and "
                    "fd-creating calls interposed (ASan/UBSan on), compared line by line with the extracted model, plus an independent "
-                   "monitor (failure reported, zero live after failure / after destroy, no crash/hang)."),
+                   "monitor (failure reported, zero live after failure / after destroy, object unchanged by the failed call, retry and "
+                   "continued use succeed, no crash/hang).  A coverage obligation regenerated from the clang AST of the whole library "
+                   "keeps the instance table complete: every allocating function with external linkage is driven or excluded with a reason."),
     "design_ref": "DESIGN.md section 6 / C18",
     "level_note": ("Trusted: Coq kernel, extraction, the hand transcription of each function (checked by the differential run for every "
                    "fault position), the --wrap fault injector and accounting; caller storage is zero-initialised; mutex/condvar/"
